@@ -10,7 +10,10 @@ from the same spec (identical initial weights, data and sample points):
 B against C (or A) decides "Solver == weighted-sum optimisation", A against C decides
 "validation never changes learnable state".
 """
+import copy
+
 import torch
+from hypothesis import strategies as st
 
 from vf import train as T
 
@@ -45,8 +48,8 @@ ASSUMPTIONS = [
     "strict ascent of an adaptive weight is demanded only without weight decay and where "
     "lr*weight*unreduced_loss/n of the first step exceeds 1e-5 (float32 resolution near 1)",
     "validation conditions without gradient tracking get derivative-free residuals",
-    "PeriodicCondition with a static non-periodic sampler and data functions (D19, property "
-    "C04/C14) is not generated",
+    "random non-periodic samplers of a PeriodicCondition are static and sampled once at build time "
+    "(same determinism premise as above); the value of the periodic loss itself is property C04",
     "Trainer(logger=False, enable_checkpointing=False, progress bar / model summary off, cpu, "
     "num_sanity_val_steps default)",
 ]
@@ -54,8 +57,64 @@ BUDGET = {"quick": {"examples": 100, "workers": 4, "shrink": False},
           "thorough": {"examples": 2000, "workers": 14}}
 
 
+@st.composite
+def _periodic_static_data(draw, tier):
+    """A drawn configuration whose first model takes (x, t) and whose first training condition is
+    a PeriodicCondition on it with a static non-periodic sampler and a data function: the data are
+    pre-evaluated at both interval ends and stored in the condition (touched by on_train_start)."""
+    spec = copy.deepcopy(draw(T.config(tier, resume=False)))
+    spec["models"][0]["in"] = "xt"
+    c = draw(T._cond(len(spec["models"]), len(spec["params"]), ["periodic"], False, False))
+    c["model"] = 0
+    c["data_fn"] = True
+    c["sampler"]["static"] = True
+    if draw(st.booleans()):
+        spec["train"][0] = c
+    else:
+        spec["train"] = ([c] + spec["train"])[:4]
+    return spec
+
+
 def strategy(tier):
-    return T.config(tier, resume=False)
+    base = T.config(tier, resume=False)
+    return st.one_of(base, base, base, base, base, _periodic_static_data(tier))
+
+
+def extra_cases(tier, seed):
+    """pinned: PeriodicCondition with a static non-periodic sampler and a data function that differs
+    between the two ends of the periodic interval, trained through the Solver"""
+    rng = 4200 + int(seed) % 5
+
+    def model(arch="FCN", out=1):
+        return {"arch": arch, "in": "xt", "out": out, "hidden": [5, 4], "act": "tanh"}
+
+    def periodic(nps="grid", fn_of="all", n=6, weight=1.5, params=()):
+        return {"type": "periodic", "model": 0, "weight": weight,
+                "sampler": {"k": "grid", "n": n, "n2": 1, "static": True}, "res": "value",
+                "data_fn": True, "params": list(params), "track": True,
+                "static_fn": True, "fn_of": fn_of, "nps": nps}
+
+    def spec(models, train, opt, params=(), sched=None, steps=5, val=(), val_interval=None):
+        return {"models": models, "params": list(params), "train": train, "opt": opt, "sched": sched,
+                "rng": rng, "steps": steps, "default_names": False, "default_opt_args": False,
+                "second_lr": None, "val": list(val), "val_interval": val_interval}
+
+    pinn = {"type": "pinn", "model": 0, "weight": 0.5,
+            "sampler": {"k": "grid", "n": 4, "n2": 2, "static": False}, "res": "deriv",
+            "data_fn": True, "params": [0], "track": True}
+    vpinn = {"type": "pinn", "model": 0, "weight": 1.0,
+             "sampler": {"k": "grid", "n": 3, "n2": 2, "static": True}, "res": "value",
+             "data_fn": False, "params": [], "track": False, "own_model": False, "own_param": False}
+    yield spec([model()], [periodic()], {"kind": "sgd", "lr": 0.1, "weight_decay": 0.0})
+    yield spec([model()], [periodic(params=[0]), pinn],
+               {"kind": "adam", "lr": 0.01, "betas": [0.9, 0.99], "amsgrad": False, "weight_decay": 0.0},
+               params=[{"dims": [1], "init": [0.8]}],
+               sched={"kind": "step", "gamma": 0.7, "freq": 1, "step_size": 2}, steps=6)
+    yield spec([model(out=2)], [periodic(nps="random", fn_of="periodic", n=4, weight=0.7)],
+               {"kind": "momentum", "lr": 0.05, "momentum": 0.9, "nesterov": False, "weight_decay": 0.0},
+               steps=4, val=[vpinn], val_interval=2)
+    yield spec([model(arch="QRES")], [periodic(nps="data", n=5, weight=2.0)],
+               {"kind": "rmsprop", "lr": 0.01, "alpha": 0.9, "momentum": 0.0, "centered": False}, steps=3)
 
 
 def _feature(spec):
@@ -244,6 +303,12 @@ def _run_once(spec, ctx):
         len([c for c in spec["train"] if c["type"] != "param"])
     if shared:
         classes.append("shared-model")
+    for c, info in zip(spec["train"], w.train_info):
+        if info["type"] == "periodic":
+            classes.append("periodic:" + ("static-data" if info.get("static_data") else
+                                          "data-fn" if c.get("data_fn") else "plain"))
+            if info.get("static_data"):
+                classes.append("periodic-static-data:fn-of-" + c.get("fn_of", "all"))
     return {"nontrivial": bool(nontrivial), "classes": classes,
             "summary": {"max_state_diff": worst, "steps": N, "final_loss": ref_losses[-1] if ref_losses else None,
                         "lr_end": ref_view["lr"], "val_calls": n_val_calls}}
